@@ -26,13 +26,14 @@ let out_tree (tr : KauriTree.tree) =
     (match nd.KauriTree.nd_threshold with None -> out_s "N" | Some z -> out_s "S"; out_int (int_of_z z));
     out_nat nd.KauriTree.nd_target; out_nat nd.KauriTree.nd_depth) tr
 
-let () =
-  (* c09.fit <params> <d> <X> <splits> <terminal 0/1> <fresh rows>
+(* c09.fit        : the model instantiated with the REGENERATED rules (Gen/KauriFitRules.v)
+   c09.fit_golden : the same skeleton with the hand-written golden rules the theorems were written against *)
+let run_fit (rules : KauriFitRules.coq_FitRules) t =
+  (* <params> <d> <X> <splits> <terminal 0/1> <fresh rows>
      runs the model loop with the recorded splits as the oracle.
      status: 0 ok | 1 the recorded sequence ended although the model loop continues
              | 2 a recorded split is not admissible in the model state | 3 out of fuel
              | 4 splits were recorded beyond the model's loop exit *)
-  register "c09.fit" (fun t ->
     let p = next_params t in let d = next_nat t in let x = next_data t in
     let splits = Array.of_list (next_list next_split t) in
     let terminal = next_bool t in
@@ -46,11 +47,11 @@ let () =
       trace := (st.KauriTree.st_nl, st.KauriTree.st_nc, st.KauriTree.st_queue) :: !trace;
       if it < Array.length splits then begin
         let sp = splits.(it) in
-        if not (KauriTree.admissibleb p d x st sp) then (if !status = 0 then (status := 2; bad := it));
+        if not (KauriTree.admissibleb_g rules p d x st sp) then (if !status = 0 then (status := 2; bad := it));
         used := it + 1;
         Some sp end
       else begin (if not terminal && !status = 0 then status := 1); None end in
-    (match KauriTree.fit p x choose with
+    (match KauriTree.fit_g rules p x choose with
      | KauriTree.OutOfFuel -> out_int 3
      | KauriTree.Done st ->
        if !status = 0 && !used < Array.length splits then status := 4;
@@ -59,15 +60,19 @@ let () =
        out_list out_nat st.KauriTree.st_queue;
        let tr = st.KauriTree.st_tree in
        out_tree tr;
-       out_list out_nat (KauriTree.labels p x st);
-       out_list out_nat (KauriTree.leaves p x st);
-       out_list (out_opt out_nat) (KauriTree.predict tr x);
-       out_list (out_opt out_nat) (KauriTree.predict tr fresh);
-       out_list (out_opt out_nat) (Stdlib.List.map (KauriTree.route_leaf tr) fresh);
-       out_list out_nat (Stdlib.List.mapi (fun a _ -> KauriTree.node_count tr x (nat_of_int a)) tr);
+       out_list out_nat (KauriTree.labels_g rules p x st);
+       out_list out_nat (KauriTree.leaves_g rules p x st);
+       out_list (out_opt out_nat) (KauriTree.predict_g rules tr x);
+       out_list (out_opt out_nat) (KauriTree.predict_g rules tr fresh);
+       out_list (out_opt out_nat) (Stdlib.List.map (KauriTree.route_leaf_g rules tr) fresh);
+       out_list out_nat (Stdlib.List.mapi (fun a _ -> KauriTree.node_count_g rules tr x (nat_of_int a)) tr);
        out_nat (KauriTree.count_leaves tr); out_nat (KauriTree.tree_depth tr);
        (* loop state at every oracle call: n_leaves, n_clusters, leaves_to_explore *)
-       out_list (fun (a, b, q) -> out_nat a; out_nat b; out_list out_nat q) (Stdlib.List.rev !trace)));
+       out_list (fun (a, b, q) -> out_nat a; out_nat b; out_list out_nat q) (Stdlib.List.rev !trace))
+
+let () =
+  register "c09.fit" (run_fit KauriFitRules.kauri_fit_rules);
+  register "c09.fit_golden" (run_fit KauriTree.golden_fit_rules);
   (* c09.objective <K> <labels> <kernel matrix> : gemini_objective in the float instance *)
   register "c09.objective" (fun t ->
     let k = next_nat t in let lab = Array.of_list (next_list next_int t) in
